@@ -18,7 +18,7 @@ ASSUMPTIONS = [
 ]
 BOUNDS = {
     "quick": {"spaces (menu size, captures per call, calls, depth, children per call)": "A1 (15,2,1,1,0) A2 (15,1,2,2,1) A3 (6,2,2,2,1) B (6,1,3,3,2)", "whitespace": "minimal, spaced, newline-before-operator"},
-    "thorough": {"spaces": "A1 (15,3,1,1,0) A2 (15,2,2,2,1) B (6,2,3,3,2) C (6,1,4,4,2)", "whitespace": "+ every single token boundary perturbed"},
+    "thorough": {"spaces": "A1 (15,3,1,1,0) A2 (15,2,2,2,1) B (4,2,3,3,2) C (6,1,4,4,2)", "whitespace": "+ every single token boundary perturbed"},
 }
 
 ROOT_ELEMENTS = [
@@ -40,7 +40,7 @@ SPACES = {
     "thorough": [
         ("A1", G.FULL_CAPS, 3, 1, 1, 0),
         ("A2", G.FULL_CAPS, 2, 2, 2, 1),
-        ("B", G.SMALL_CAPS, 2, 3, 3, 2),
+        ("B", G.SMALL_CAPS[:4], 2, 3, 3, 2),
         ("C", G.SMALL_CAPS, 1, 4, 4, 2),
     ],
 }
@@ -49,11 +49,20 @@ SPACES = {
 def units(tier):
     out = [("root",)]
     for name, menu, width, calls, depth, nch in SPACES[tier]:
-        n = sum(1 for _ in G.enumerate_ir(menu, width, calls, depth, nch))
+        n = len(_ir_list(name, tier))
         chunk = 100 if tier == "quick" else 2000
         for lo in range(0, n, chunk):
             out.append(("ir", name, lo, lo + chunk))
     return out
+
+
+_IR = {}
+
+
+def _ir_list(name, tier):
+    if (name, tier) not in _IR:
+        _IR[(name, tier)] = list(G.enumerate_ir(*_space(name, tier)))
+    return _IR[(name, tier)]
 
 
 def _space(name, tier):
@@ -76,7 +85,12 @@ def check_ir(call, tier, part, registry):
     first_text = None
     for k, sp in enumerate(sps):
         # every spelling in minimal form; whitespace variants on the first two and the last one
-        texts = G.renderings(sp, thorough=(tier == "thorough")) if k in (0, 1, len(sps) - 1) else [G.render(sp, "min")]
+        if k == 0:
+            texts = G.renderings(sp, thorough=(tier == "thorough"))
+        elif k in (1, len(sps) - 1):
+            texts = G.renderings(sp)
+        else:
+            texts = [G.render(sp, "min")]
         for text in texts:
             part["evaluations"] += 1
             part["steps"] += 1
@@ -145,7 +159,7 @@ def work(unit, tier):
     menu, width, calls, depth, nch = _space(name, tier)
     import itertools
 
-    for call in itertools.islice(G.enumerate_ir(menu, width, calls, depth, nch), lo, hi):
+    for call in _ir_list(name, tier)[lo:hi]:
         if G.is_degenerate(call):
             continue
         for c in G.with_focus_choices(call):
